@@ -18,6 +18,38 @@ CHECKS = {
               "the generated inputs; no axioms (Print Assumptions: closed under the global context)"),
         technique="Coq proof over hand-written Gallina model + differential correspondence (extracted OCaml vs Python)",
         design="4 C03"),
+    "C13": dict(
+        text=("Theorems: the enumerator [confs] is sound, complete and duplicate-free for the relational semantics [Valid] of "
+              "the feature tree (bit-vector configurations), and [estimate] — the transcription of count_configurations_rec — "
+              "equals its length for every tree with 0<=min and (max=-1 or 0<=max), all relation kinds, any number of "
+              "relations per parent, any size; any further filter (constraints) gives <= estimate. Tie to the code: "
+              "differential suite O-estimate; the semantics itself is validated against an independent brute-force enumerator."),
+        note="Coq kernel; extraction/driver; harness; the Gallina semantics as the reading of 'valid configuration'; no axioms",
+        technique="Coq proof (induction over the tree, elementary symmetric polynomials) + differential correspondence",
+        design="4 C13"),
+    "C14": dict(
+        text=("Theorems over the name-form semantics [sem]/[valid]: every core feature is selected in every valid configuration "
+              "(with or without constraints), returned once under unique names, root included, and — without constraints — every "
+              "always-selected name is returned (constructive: a valid selection avoiding any non-core feature is built). "
+              "Tie to the code: suite O-core (multiset comparison) with a brute-force oracle."),
+        note="Coq kernel; extraction/driver; harness; result order of the work-list loop not modelled (multiset); no axioms",
+        technique="Coq proof over hand-written Gallina model + differential correspondence",
+        design="4 C14"),
+    "C15": dict(
+        text=("Theorems: the atomic sets are a partition of the feature names (permutation of the name list, no empty set), members "
+              "of one set have equal selection value in every configuration obeying the tree rules, mandatory children are in the "
+              "parent's set. Tie to the code: suite O-atomic with a brute-force oracle."),
+        note="Coq kernel; extraction/driver; harness; the structural formulation of the recursive set construction is validated by correspondence; no axioms",
+        technique="Coq proof over hand-written Gallina model + differential correspondence",
+        design="4 C15"),
+    "C16": dict(
+        text=("Theorems: leaves/leaf count = features without relations, max depth = longest root-to-leaf path, ancestors table = "
+              "chain of parents up to the root for every feature, branching factor = bit-exact Python round(children/branches, 2) "
+              "with a proved error bound to the exact rational, variation points = features with non-mandatory relations. Totality "
+              "on the implementation (incl. root-only model) is decided by the correspondence suite O-tree, not by a theorem."),
+        note="Coq kernel; extraction/driver; harness; binary64 division and round() modelled in Z and validated on every case; no axioms",
+        technique="Coq proof over hand-written Gallina model + differential correspondence",
+        design="4 C16"),
 }
 
 NOT_YET = {
